@@ -180,9 +180,49 @@ def _layout_lock(ctx, cl):
              and [norm(s) for s in n.body][:1] == ['self.blocks.append(text)']
              and any(isinstance(s, ast.Return) for s in n.body) for n in seg.node.body)
     seg_txt = ' '.join(norm(x) for x in walk_local(seg.node) if isinstance(x, ast.stmt))
-    ctx.tri(ok, 'COPY_ALL' not in seg_txt, 'LOCK', 'PLSSChunker.segment keeps copy_all text in one block',
-            detail_bad="segment() no longer treats copy_all specially: a copy_all text that contains Twp/Rges is cut into chunks",
-            key="LOCK|segment|copyall")
+    # decided by following segment() for layout == COPY_ALL with at least one Twp/Rge match: the walk
+    # must reach `self.blocks.append(text)` and return without calling a _segment_* method
+    from .. import ccp
+    verdict = None
+    try:
+        names = layout_classes(ctx)['names']
+        env = dict(names)
+        env.update({'layout': names.get('COPY_ALL', 'copy_all'), 'matches': ('m',), 'text': 'text'})
+        stmts = list(seg.node.body)
+        steps = 0
+        while stmts and verdict is None and steps < 50:
+            st = stmts.pop(0)
+            steps += 1
+            if isinstance(st, ast.Expr) and isinstance(st.value, ast.Constant):
+                continue
+            if isinstance(st, ast.If):
+                stmts = list(st.body if ccp.truth(ccp.ev(st.test, env)) else st.orelse) + stmts
+            elif isinstance(st, ast.Return):
+                verdict = 'returned without keeping the text'
+            elif isinstance(st, ast.Expr) and isinstance(st.value, ast.Call):
+                nm_ = norm(st.value.func)
+                if nm_.startswith('self._segment'):
+                    verdict = f"calls {nm_}()"
+                elif nm_ == 'self.blocks.append' and [norm(a) for a in st.value.args] == ['text']:
+                    verdict = 'kept'
+            elif isinstance(st, ast.Assign) and isinstance(st.targets[0], ast.Name):
+                if st.targets[0].id in ('matches', 'text', 'layout') and not (st.targets[0].id == 'layout'):
+                    continue            # the finder's result / the text: kept symbolic
+                env[st.targets[0].id] = ccp.ev(st.value, env)
+            else:
+                raise ccp.Unsupported(type(st).__name__)
+    except ccp.Unsupported as e:
+        verdict = None
+    if verdict is None:
+        ctx.tri(ok, 'COPY_ALL' not in seg_txt, 'LOCK', 'PLSSChunker.segment keeps copy_all text in one block',
+                detail_bad="segment() no longer treats copy_all specially: a copy_all text that contains Twp/Rges is cut into chunks",
+                key="LOCK|segment|copyall")
+    else:
+        ctx.check(verdict == 'kept', 'LOCK', 'PLSSChunker.segment keeps copy_all text in one block',
+                  'followed for layout == copy_all with a Twp/Rge match',
+                  f"for layout copy_all and a text that contains a Twp/Rge, segment() {verdict}: a description that is deduced (or "
+                  f"dictated) as copy_all is cut at each Twp/Rge into several partial tracts, and text before the first one is lost",
+                  key="LOCK|segment|copyall")
 
 
 def chunk_layout_conditions(pp):
